@@ -24,10 +24,22 @@ demo_without=$($G go test -vet=off -count=1 -run "^$DTEST\$" ./$DDIR/ 2>&1 | tai
 cd /; git -C /repo worktree remove --force $WT; rm -rf $WT
 echo "CONFIRM $LBL/$N suite_failures=[${suite}] demo_with_patch=[${demo_with}] demo_without=[${demo_without}]"
 PROPS=${@:-$PROP}
-git -C /repo apply /tmp/seed-rebased-$LBL-$N.diff || { echo "cannot apply to /repo"; exit 3; }
-for P in $PROPS; do
-  out=$(cd /verif && VERIF_NO_EVIDENCE=1 ./check $P 2>/dev/null | tail -1); rc=$?
-  echo "CHECK $LBL/$N on $P: $out"
-done
-git -C /repo checkout -- .
-git -C /repo status --short | head -3
+# run the checks against a scratch copy of /repo with the patch applied (never touches /repo, so
+# background runs that use /repo are not disturbed); set SEED_IN_REPO=1 to patch /repo itself
+if [ "${SEED_IN_REPO:-0}" = "1" ]; then
+  git -C /repo apply /tmp/seed-rebased-$LBL-$N.diff || { echo "cannot apply to /repo"; exit 3; }
+  for P in $PROPS; do
+    out=$(cd /verif && VERIF_NO_EVIDENCE=1 ./check $P 2>/dev/null | tail -1)
+    echo "CHECK $LBL/$N on $P: $out"
+  done
+  git -C /repo checkout -- .
+  git -C /repo status --short | head -3
+else
+  SCR=/tmp/seedrun-$$; rm -rf $SCR; mkdir -p $SCR; (cd /repo && git archive HEAD) | tar -x -C $SCR
+  (cd $SCR && patch -p1 -s < /tmp/seed-rebased-$LBL-$N.diff) || { echo "cannot apply to scratch copy"; rm -rf $SCR; exit 3; }
+  for P in $PROPS; do
+    out=$(cd /verif && VERIF_REPO=$SCR ./check $P 2>/dev/null | tail -1)
+    echo "CHECK $LBL/$N on $P: $out"
+  done
+  rm -rf $SCR
+fi
